@@ -172,6 +172,7 @@ def main():
     walked = bad_paths = 0
     todo = entry_ok if tier != "quick" else entry_ok[:40]
     jobs = [dict(op="rewrite", mode="dp", tables=rules.tables(), privacy_unit=rules.PRIVACY_UNIT, dp=dict(epsilon=1.0, delta=1e-3), synthetic=syn, sql=rules.sql_of(shape)) for shape, syn in todo]
+    sql_text = lambda sh: sh if isinstance(sh, str) else rules.sql_of(sh)
     d.close()
     answers = driver.parallel_batch(jobs, workers=12, timeout=120.0)
     for (shape, syn), a in zip(todo, answers):
@@ -189,12 +190,116 @@ def main():
             if not ok:
                 bad_paths += 1
                 ck.violation("ir=path-without-noised-aggregation", "`%s` (synthetic=%s): the relation returned by rewrite_with_differential_privacy reads the protected table %s through the path %s with no aggregation followed by a noise-adding map" % (
-                    rules.sql_of(shape), syn, ".".join(up[0].get("path", [])), " < ".join(n["k"] for n in up)), dict(sql=rules.sql_of(shape), synthetic=syn))
+                    sql_text(shape), syn, ".".join(up[0].get("path", [])), " < ".join(n["k"] for n in up)), dict(sql=sql_text(shape), synthetic=syn))
+    # ---- S: a rewriting that reports NO privacy cost must not depend on the protected rows ------------------------------
+    # Key-only reduces (GROUP BY / DISTINCT / MIN / MAX of grouping keys whose values are enumerable, hence public) compile to
+    # relations without any noise: the structural criterion above does not apply to them (the correct relation still reads the
+    # protected table, through a LEFT JOIN from the public key list that makes the result data independent). They are decided
+    # semantically: the returned relation is executed symbolically (engine S) on a database D and on D minus all rows of one
+    # unit u; the solver looks for a D and a u on which the two result bags differ. Replay on SQLite.
+    import symrel, exprsem, sqlrun, pucat, mir as mir_, c05, c01
+    from smt import lnot as lnot_
+    KEY_ONLY = ["SELECT c FROM prot GROUP BY c", "SELECT DISTINCT c FROM prot", "SELECT c, max(c) AS m FROM prot GROUP BY c", "SELECT c FROM child GROUP BY c",
+                "SELECT c FROM (SELECT c, a + 1 AS a FROM prot WHERE a > 1) AS s0 GROUP BY c", "SELECT s0.c AS c FROM (SELECT c FROM prot GROUP BY c) AS s0 JOIN pub AS s1 ON s0.c = s1.c",
+                "SELECT DISTINCT c FROM clinic.patients", "SELECT c, min(c) AS lo, max(c) AS hi FROM prot WHERE a > 2 GROUP BY c", "SELECT c, b FROM prot GROUP BY c, b", "SELECT id FROM prot GROUP BY id"]
+    # the corpus tables plus two columns whose types are value sets (enumerable, hence public grouping keys)
+    ktabs = [dict(t, fields=t["fields"] + [dict(name="c", dt=driver.t_int((1, 1), (2, 2), (3, 3)), constraint=None), dict(name="b", dt=driver.t_int((0, 0), (1, 1)), constraint=None)]) for t in rules.tables()]
+    kjobs = [dict(op="rewrite", mode="dp", tables=ktabs, privacy_unit=rules.PRIVACY_UNIT, dp=dict(epsilon=1.0, delta=1e-3), synthetic=False, sql=q_, render=True) for q_ in KEY_ONLY]
+    kans = driver.parallel_batch(kjobs, workers=8, timeout=120.0)
+    fns_ = mir_.parse_mir(mir_.dump_mir()[0])
+    pu_ = dict(tables=[dict(t, table=("clinic_patients" if t["table"] == "patients" else t["table"])) for t in rules.PRIVACY_UNIT["tables"]], hash=False)
+    sq, smeta, s_zero_cost = [], {}, 0
+    for qi, (q_, a) in enumerate(zip(KEY_ONLY, kans)):
+        if "panic" in a:
+            ck.note("rewrite_with_differential_privacy panics on `%s` (C18 territory): %s" % (q_, a["panic"][:160]))
+        if "ok" not in a:
+            continue
+        ev = a["ok"].get("dp_event_s", "")
+        if "Gaussian" in ev or "Epsilon" in ev:
+            continue   # a cost is reported: C01 / C03 / C04 territory
+        s_zero_cost += 1
+        rel = a["ok"]["rewritten"]
+        try:
+            ctx = symrel.Ctx(fns_)
+            db, ctx_tables = {}, {}
+            for p_, tj in symrel.tables_of(rel).items():
+                r_ = symrel.make_table(ctx, tj, 2)
+                db[p_] = r_
+                ctx_tables[p_] = (tj, r_)
+            for t in pu_["tables"]:
+                # ownership follows foreign-key paths: the referred tables have to exist on the symbolic side as well
+                if not any(p_[-1] == t["table"] or "_".join(p_) == t["table"] for p_ in db):
+                    tj = [x for x in ktabs if x["name"] == t["table"]][0]
+                    tj2 = dict(name=tj["name"], path=[tj["name"]], size=[[str(tj["size"][0]), str(tj["size"][1])]], schema=[dict(name=f["name"], dt=f["dt"], constraint=f["constraint"]) for f in tj["fields"]])
+                    r_ = symrel.make_table(ctx, tj2, 2)
+                    db[(tj["name"],)] = r_
+                    ctx_tables[(tj["name"],)] = (tj2, r_)
+            dbk = {((("clinic_patients",) if p_ == ("clinic", "patients") else p_)): r_ for p_, r_ in db.items()}
+            u = ctx.new("i64", "unit")
+            owned = pucat.owner_terms(pu_, dbk, u)
+            owned = {("clinic" if t_ == "clinic_patients" else t_): o_ for t_, o_ in owned.items()}
+            without = {}
+            for p_, r_ in db.items():
+                if p_[0] in owned:
+                    without[p_] = symrel.Rel(r_.cols, [symrel.Row(land([x.p, lnot(o_)]), x.cells) for x, o_ in zip(r_.rows, owned[p_[0]])], r_.name)
+                else:
+                    without[p_] = r_
+            A = symrel.eval_rel(ctx, rel, db, {})
+            B = symrel.eval_rel(ctx, rel, without, {})
+        except exprsem.Unsupported as ex:
+            ck.inconclusive("part S: `%s` cannot be executed symbolically: %s" % (q_, str(ex)[:120]))
+            continue
+        cols = [f["name"] for f in rel["schema"]]
+        diff = [land([x.p, "(not (= %s %s))" % (c05.count_eq(A.rows, x, cols), c05.count_eq(B.rows, x, cols))]) for x in A.rows + B.rows]
+        nopanic = [lnot(p_) for p_ in ctx.bank.panics]
+        some_owned = lor([land([x.p, o_]) for p_, r_ in db.items() if p_[0] in owned for x, o_ in zip(r_.rows, owned[p_[0]])])
+        sq.append(dict(id="S/%d" % qi, script=ctx.script(nopanic + [lor(diff)]), values=symrel.value_names(ctx_tables) + [u]))
+        smeta["S/%d" % qi] = dict(sql=q_, rel=rel, ctx_tables=ctx_tables, u=u, rendered=(a.get("sql") or {}).get("sqlite"), owned=owned, event=ev)
+        sq.append(dict(id="SW/%d" % qi, script=ctx.script(nopanic + [some_owned]), values=[]))
+        smeta["SW/%d" % qi] = dict(witness=True)
+    sres = smt.solve_all(sq, 30.0, workers=8) if sq else []
+    sres = smt.replayable_models(sq, sres, 30.0, workers=8) if sq else []
+    ck.count(sres)
+    s_conf = 0
+    for r in sres:
+        info = smeta[r["id"]]
+        if info.get("witness"):
+            if r["status"] != "sat":
+                ck.inconclusive("part S vacuity witness %s is %s" % (r["id"], r["status"]))
+            continue
+        if r["status"] != "sat":
+            continue
+        dbm = symrel.model_db(info["ctx_tables"], r["model"])
+        uval = int(r["model"][info["u"]])
+        pyo = pucat.py_owner(pu_, {((("clinic_patients",) if p_ == ("clinic", "patients") else p_)): rows_ for p_, rows_ in dbm.items()})
+        db2 = {}
+        for p_, rows_ in dbm.items():
+            tn = "clinic_patients" if p_ == ("clinic", "patients") else p_[0]
+            db2[p_] = [row for row, o_ in zip(rows_, pyo[tn])if o_ != uval] if tn in pyo else rows_
+        shown = {".".join(p_): rows_ for p_, rows_ in dbm.items()}
+        try:
+            res = []
+            for dbx in (dbm, db2):
+                con = sqlrun.connect(random_value=0.5)
+                sqlrun.load(con, {p_: tj for p_, (tj, _) in info["ctx_tables"].items()}, dbx)
+                res.append(sorted(map(repr, sqlrun.run(con, c01.sqlite_fix(info["rendered"]))[1])))
+        except Exception as ex:
+            ck.inconclusive("part S: SQLite replay failed for `%s`: %s" % (info["sql"], str(ex)[:200]))
+            continue
+        if res[0] != res[1]:
+            s_conf += 1
+            ck.violation("dp=zero-cost-result-depends-on-protected-rows", "`%s`: rewrite_with_differential_privacy reports the event %s, yet the relation it returns gives %s on D = %s and %s once the rows of unit %d are removed" % (
+                info["sql"], info["event"] or "NoOp", res[0], shown, res[1], uval), dict(sql=info["sql"], db=shown, unit=uval, with_unit=res[0], without_unit=res[1]))
+        else:
+            ck.inconclusive("part S: counterexample for `%s` did not reproduce on SQLite (D = %s, unit %d)" % (info["sql"], shown, uval))
+    ck.note("part S: %d key-only programs, %d compiled with a zero-cost event and executed symbolically on D and D minus a unit" % (len(KEY_ONLY), s_zero_cost))
+    if s_zero_cost == 0:
+        ck.inconclusive("part S: no key-only program compiles with a zero-cost event (vacuous)")
     ck.samples = [dict(rule="%s: [%s] -> %s%s" % (r[0], ", ".join(r[2]), r[3], " (protected table)" if r[1] else "")) for r in rows[:12]]
     cov = dict(
         explanation="rule level: %d distinct rule rows extracted from the real setter, 5 inductive obligations decided by the solver over a symbolic row (covers relation trees of any depth); tree level: all labelings of %d corpus trees (%d labelings) decided by the solver; IR level: %d root-to-protected-table paths of %d returned relations walked structurally (not a solver claim)" % (
             len(rows), n_prog * 2, labelings, walked, len(todo)),
-        rule_rows=len(rows), programs=n_prog, labelings=labelings, ir_paths_walked=walked, ir_bad_paths=bad_paths,
+        zero_cost_programs_executed_symbolically=s_zero_cost, rule_rows=len(rows), programs=n_prog, labelings=labelings, ir_paths_walked=walked, ir_bad_paths=bad_paths,
         obligation_names=sorted(obligations), obligations=len(obligations), discharged=sum(1 for r in results if meta[r['id']]['kind']=='rule' and r['status']=='unsat'),
         bounds=dict(configurations="synthetic data on/off x Soft/Hard x protected (direct id, qualified path, foreign-key path) / public tables",
                     outside=["the lineage formulation over arbitrary emitted IR is only walked structurally on the corpus", "semantic non-interference is C01/C04/C05's business"]),
